@@ -1,0 +1,9 @@
+//go:build !verif
+
+package encoder
+
+// Verification hooks (build tag "verif"): no-ops in normal builds.
+
+func VerifSlot(kind uint8, base uintptr, idx uint32) {}
+func verifPtrs(c *RuntimeContext)                    {}
+func verifInit(c *RuntimeContext)                    {}
